@@ -6,9 +6,9 @@ wt="/var/tmp/vs-$id"
 git -C /repo worktree add -q --detach "$wt" HEAD || exit 3
 out="$d/validation.txt"; : > "$out"
 cd "$wt"
-PYTHONPATH="$wt" /venv/bin/python -B "$d/demo.py" >/dev/null 2>&1; echo "demo on clean tree: exit $?" >> "$out"
+DEMO_ANY_PATH=1 PYTHONPATH="$wt" /venv/bin/python -B "$d/demo.py" >/dev/null 2>&1; echo "demo on clean tree: exit $?" >> "$out"
 git apply "$d/patch.diff" && echo "patch applies" >> "$out"
-PYTHONPATH="$wt" /venv/bin/python -B "$d/demo.py" >/dev/null 2>&1; echo "demo with change: exit $?" >> "$out"
+DEMO_ANY_PATH=1 PYTHONPATH="$wt" /venv/bin/python -B "$d/demo.py" >/dev/null 2>&1; echo "demo with change: exit $?" >> "$out"
 PYTHONPATH="$wt" /venv/bin/python -B -m pytest -q -p no:cacheprovider --timeout=900 2>&1 | tail -1 >> "$out"
 cd /; git -C /repo worktree remove --force "$wt"
 cat "$out"
